@@ -368,6 +368,52 @@ pub async fn cases(w: &mut World, t: &Twin) -> Vec<Case> {
     v
 }
 
+/// Coherent substitutions: the user's own account and group, but a bank of the *other* group
+/// presented together with everything that belongs to it (vaults, authorities, oracle / venue
+/// accounts), so that no single mismatch between bank and vault gives the game away. Each of
+/// these must be rejected: the bank belongs to another group.
+pub fn coherent_foreign_bank_cells(w: &World, t: &Twin) -> Vec<(String, Instruction, Keypair)> {
+    let auth = w.auth_of(t.acct0);
+    let ak = auth.pubkey();
+    let g0k = w.groups[t.g0].key;
+    let acct = w.accts[t.acct0].key;
+    let mut v = vec![];
+    // standard instructions built for the twin bank (group 1), then group and account swapped back to the user's own
+    let fix = |mut ixn: Instruction, g1k: Pubkey, acct1k: Pubkey| -> Instruction {
+        for m in ixn.accounts.iter_mut() {
+            if m.pubkey == g1k {
+                m.pubkey = g0k;
+            }
+            if m.pubkey == acct1k {
+                m.pubkey = acct;
+            }
+        }
+        ixn
+    };
+    let g1k = w.groups[t.g1].key;
+    let acct1k = w.accts[t.acct1].key;
+    let ta_a = w.ta_of(t.acct1, t.a1);
+    let ta_b = w.ta_of(t.acct1, t.b1);
+    v.push(("deposit".to_string(), fix(w.ix_deposit(t.acct1, t.a1, ak, ta_a, 1000, None), g1k, acct1k), clone_kp(&auth)));
+    // withdraw / borrow: the risk tail is the user's own positions plus the foreign bank
+    let (pa, pb) = (w.token_program_of_bank(t.a1), w.token_program_of_bank(t.b1));
+    let mut rem_a = w.mint_prefix(t.a1);
+    rem_a.extend(w.risk_metas(t.acct0, Some(t.a1), None));
+    let mut rem_b = w.mint_prefix(t.b1);
+    rem_b.extend(w.risk_metas(t.acct0, Some(t.b1), None));
+    v.push(("withdraw".to_string(), ix::withdraw(g0k, acct, ak, w.banks[t.a1].key, ta_a, pa, 1000, None, rem_a), clone_kp(&auth)));
+    v.push(("borrow".to_string(), ix::borrow(g0k, acct, ak, w.banks[t.b1].key, ta_b, pb, 1000, rem_b), clone_kp(&auth)));
+    v.push(("repay".to_string(), fix(w.ix_repay(t.acct1, t.b1, ak, ta_b, 1000, None), g1k, acct1k), clone_kp(&auth)));
+    if let Some(vb) = t.venue {
+        for (n, b) in [("kamino", vb[1]), ("solend", vb[3])] {
+            let ta = w.ta_of(t.acct1, b);
+            v.push((format!("{}_deposit", n), fix(w.ix_venue_deposit(t.acct1, b, ak, ta, 1000), g1k, acct1k), clone_kp(&auth)));
+            v.push((format!("{}_withdraw", n), fix(w.ix_venue_withdraw(t.acct1, b, ak, ta, 100, None), g1k, acct1k), clone_kp(&auth)));
+        }
+    }
+    v
+}
+
 /// Run the C08 matrix for one world.
 pub async fn run_c08(w: &mut World, m: &mut Mon, r: &mut R, t: &Twin) {
     let ids = Admin::identities(w, t.g0);
@@ -387,6 +433,18 @@ pub async fn run_c08(w: &mut World, m: &mut Mon, r: &mut R, t: &Twin) {
               // bankruptcy needs the whole portfolio worthless, venue collateral included
               scale_price(w, vb[0], 1e-7);
               scale_price(w, vb[2], 1e-7);
+          }
+      }
+      if phase == 0 {
+          for (name, ixn, kp) in coherent_foreign_bank_cells(w, t) {
+              // control: the same instruction entirely inside the other group works
+              let o = w.probe(m, &[ixn], &[&kp]).await;
+              m.r.eval();
+              m.r.count("C08.matrix_coherent_foreign_bank_cells");
+              m.r.distinct(&("coherent", name.clone(), o.ok(), o.custom_code()));
+              if o.ok() {
+                  m.r.violate("C08", &format!("C08/matrix/{}/accepted-with-foreign-groups-bank-and-its-own-vaults", name), "own group and account, bank + vaults + oracle accounts of the other group".into());
+              }
           }
       }
       let cs = cases(w, t).await;
